@@ -33,16 +33,21 @@ class _dtype_value_context:
             cls._global_half_value = half_value
 
     def __init__(self, float_value=None, double_value=None, half_value=None):
-        self._orig_float_value = self.__class__.value(dtype=torch.float)
         self._instance_float_value = float_value
-        self._orig_double_value = self.__class__.value(dtype=torch.double)
         self._instance_double_value = double_value
-        self._orig_half_value = self.__class__.value(dtype=torch.half)
         self._instance_half_value = half_value
+        self._orig_float_values = []
+        self._orig_double_values = []
+        self._orig_half_values = []
 
     def __enter__(
         self,
     ):
+        # Snapshot the values in force right now (not at construction time), so that
+        # the context restores exactly what it replaced, also when it is re-used or nested.
+        self._orig_float_values.append(self.__class__._global_float_value)
+        self._orig_double_values.append(self.__class__._global_double_value)
+        self._orig_half_values.append(self.__class__._global_half_value)
         self.__class__._set_value(
             self._instance_float_value,
             self._instance_double_value,
@@ -50,7 +55,10 @@ class _dtype_value_context:
         )
 
     def __exit__(self, *args):
-        self.__class__._set_value(self._orig_float_value, self._orig_double_value, self._orig_half_value)
+        # Restore unconditionally (a previous value of None must be restored as well)
+        self.__class__._global_float_value = self._orig_float_values.pop()
+        self.__class__._global_double_value = self._orig_double_values.pop()
+        self.__class__._global_half_value = self._orig_half_values.pop()
         return False
 
 
@@ -81,14 +89,16 @@ class _feature_flag:
         cls._state = state
 
     def __init__(self, state=True):
-        self.prev = self.__class__._state
         self.state = state
+        self._prev_states = []
 
     def __enter__(self):
+        # Snapshot the state in force right now (not at construction time)
+        self._prev_states.append(self.__class__._state)
         self.__class__._set_state(self.state)
 
     def __exit__(self, *args):
-        self.__class__._set_state(self.prev)
+        self.__class__._set_state(self._prev_states.pop())
         return False
 
 
@@ -104,16 +114,18 @@ class _value_context:
         cls._global_value = value
 
     def __init__(self, value):
-        self._orig_value = self.__class__.value()
         self._instance_value = value
+        self._orig_values = []
 
     def __enter__(
         self,
     ):
+        # Snapshot the value in force right now (not at construction time)
+        self._orig_values.append(self.__class__._global_value)
         self.__class__._set_value(self._instance_value)
 
     def __exit__(self, *args):
-        self.__class__._set_value(self._orig_value)
+        self.__class__._set_value(self._orig_values.pop())
         return False
 
 
